@@ -10,7 +10,7 @@ typedef struct T_struct_QArrayData QAD;
 #define QB_CAP 40
 #endif
 #define VP_DATA_OFF 56   /* data offset of model blocks (static literals keep their characters at offset 0 or 24) */
-struct qs { QAD h; uint32_t hint; uint8_t isnum, neg; uint64_t mag; QAD *b64; uint16_t data[QS_CAP]; };
+struct qs { QAD h; uint32_t hint; uint8_t isnum, neg, exact, lit; uint64_t mag; QAD *b64; uint64_t sid; uint16_t data[QS_CAP]; };
 struct qb { QAD h; uint32_t hint; uint8_t isnum, neg; uint64_t mag; QAD *b64; uint8_t data[QB_CAP + 1]; };
 /* every loop of the models lives in a vpl_* helper (one loop each; the driver gives them --unwindset CAP+2).
    `hint` is a constant upper bound of the length kept in the block (symbolic strings: their maxlen; literal copies: the
@@ -39,6 +39,24 @@ static int vp_is_blk(const void *b, int k) { for (unsigned i = 0; i < vp_nblk[k]
 #define BD(d) (((struct qb*)(d))->data)
 #define H16(p, n) ((n) == 0 ? 0u : (VP_IS_QS(p) ? ((struct qs*)((char*)(p) - QS_OFF))->hint : (uint32_t)(n)))
 #define H8(p, n) ((n) == 0 ? 0u : (VP_IS_QB(p) ? ((struct qb*)((char*)(p) - QB_OFF))->hint : (uint32_t)(n)))
+/* ---- string ids: `sid` identifies the content of a UTF-16 string so that equality is one 64-bit comparison.
+   len <= 3: injective packing (top bit 0).  len > 3: rotate-xor hash with top bit 1, used only for content that is a verbatim
+   copy of literal data of the program (flag `exact`); the driver checks OFFLINE, on every run, that the hash is injective on
+   all literal prefixes of the translated program (report.json literals16), so equal sid <=> equal content for exact strings.
+   Strings with other content (exact == 0) are compared unit by unit. ---- */
+#ifdef __CPROVER__
+#define VP_LITSTART(p) (__CPROVER_POINTER_OFFSET(p) == 0 || __CPROVER_POINTER_OFFSET(p) == 24)
+#else
+#define VP_LITSTART(p) 0
+#endif
+#define SID_PACK(p, n) ((uint64_t)(n) | ((n) > 0 ? (uint64_t)(p)[0] << 8 : 0) | ((n) > 1 ? (uint64_t)(p)[1] << 24 : 0) | ((n) > 2 ? (uint64_t)(p)[2] << 40 : 0))
+static uint64_t vpl_hash16(const uint16_t *p, uint32_t n) { uint64_t h = 0x1E3779B97F4A7C15ULL ^ n; for (uint32_t i = 0; i < H16(p, n); i++) { if (i >= n) break; h = ((h << 7) | (h >> 57)) ^ p[i]; } return h | 0x8000000000000000ULL; }
+#define QSBLK(p) ((struct qs*)((char*)(p) - QS_OFF))
+/* ids live in model blocks only (a literal operand is compared unit by unit, bounded by its constant length); `lit` = the content
+   is a verbatim copy of literal data, `exact` = sid is valid (len <= 3, or lit) */
+#define VIEW_EXACT(p, n) (VP_IS_QS(p) ? (QSBLK(p)->exact && QSBLK(p)->h.f1 == (n)) : ((n) <= 3))
+#define VIEW_SID(p, n) (VP_IS_QS(p) ? QSBLK(p)->sid : SID_PACK(p, n))
+#define VIEW_LIT(p, n) (VP_IS_QS(p) ? (QSBLK(p)->lit && QSBLK(p)->h.f1 == (n)) : VP_LITSTART(p))
 static uint32_t hint16(const uint16_t *p, uint64_t n) { if (n == 0) return 0; if (VP_IS_QS(p)) return ((struct qs*)((char*)p - QS_OFF))->hint; return (uint32_t)n; }
 static uint32_t hint8(const uint8_t *p, uint64_t n) { if (n == 0) return 0; if (VP_IS_QB(p)) return ((struct qb*)((char*)p - QB_OFF))->hint; return (uint32_t)n; }
 static uint32_t umin(uint32_t a, uint32_t b) { return a < b ? a : b; }
@@ -72,7 +90,7 @@ static uint32_t qs_hint(QAD *d) { return hint16(qs_chars(d), d->f1); }
 static uint32_t qb_hint(QAD *d) { return hint8(qb_bytes(d), d->f1); }
 void _ZN10QArrayData10deallocateEPS_mm(char *d, uint64_t sz, uint64_t al) { /* model blocks are never recycled */ }
 static QAD *qs_new(uint32_t len, uint32_t hint) { struct qs *s = malloc(sizeof(struct qs)); ASSUME(s != 0); ASSERT(len <= QS_CAP, "QString capacity of the model exceeded");
-  REF(&s->h) = 1; s->h.f1 = len; s->h.f2 = QS_CAP; s->h.f3 = QS_OFF; s->isnum = 0; s->neg = 0; s->mag = 0; s->b64 = 0; s->hint = umin(hint, QS_CAP); VP_REG_BLK(s, 0); return &s->h; }
+  REF(&s->h) = 1; s->h.f1 = len; s->h.f2 = QS_CAP; s->h.f3 = QS_OFF; s->isnum = 0; s->neg = 0; s->exact = 0; s->lit = 0; s->sid = 0; s->mag = 0; s->b64 = 0; s->hint = umin(hint, QS_CAP); VP_REG_BLK(s, 0); return &s->h; }
 static QAD *qb_new(uint32_t len, uint32_t hint) { struct qb *s = malloc(sizeof(struct qb)); ASSUME(s != 0); ASSERT(len <= QB_CAP, "QByteArray capacity of the model exceeded");
   REF(&s->h) = 1; s->h.f1 = len; s->h.f2 = QB_CAP + 1; s->h.f3 = QB_OFF; s->isnum = 0; s->neg = 0; s->mag = 0; s->b64 = 0; s->hint = umin(hint, QB_CAP); s->data[len] = 0; VP_REG_BLK(s, 1); return &s->h; }
 char* _ZN10QArrayData8allocateEmmm6QFlagsINS_16AllocationOptionEE(uint64_t objSize, uint64_t align, uint64_t cap, uint32_t opts) {
@@ -82,7 +100,9 @@ char* _ZN10QArrayData8allocateEmmm6QFlagsINS_16AllocationOptionEE(uint64_t objSi
 /* ---- abstract numeric strings: the value lives in the block (isnum/neg/mag), the text is a placeholder ---- */
 struct numv { uint8_t isnum, neg; uint64_t mag; };
 static struct numv NONUM = { 0, 0, 0 };
-static QAD *qs_from(const uint16_t *p, uint32_t n) { uint32_t h = hint16(p, n); QAD *d = qs_new(n, h); vpl_copy16(d, 0, p, n, h); return d; }
+/* seal: compute the id of a freshly built block; lit = its content is a verbatim copy of exact (literal-derived) content */
+static void qs_seal(QAD *d, int lit) { struct qs *q = (struct qs*)d; uint32_t n = d->f1; q->lit = lit; if (n <= 3) { q->sid = SID_PACK(q->data, n); q->exact = 1; } else if (lit) { q->sid = vpl_hash16(q->data, n); q->exact = 1; } else { q->exact = 0; } }
+static QAD *qs_from(const uint16_t *p, uint32_t n) { uint32_t h = hint16(p, n); QAD *d = qs_new(n, h); vpl_copy16(d, 0, p, n, h); qs_seal(d, VIEW_LIT(p, n)); return d; }
 static QAD *qb_from(const uint8_t *p, uint32_t n) { uint32_t h = hint8(p, n); QAD *d = qb_new(n, h); vpl_copy8(d, 0, p, n, h); BD(d)[n] = 0; return d; }
 static QAD *qs_number(uint64_t mag, uint8_t neg) { QAD *d = qs_new(1, 1); SD(d)[0] = '#'; struct qs *q = (struct qs*)d; q->isnum = 1; q->neg = neg && mag != 0; q->mag = mag; return d; }
 static QAD *qb_number(uint64_t mag, uint8_t neg) { QAD *d = qb_new(1, 1); BD(d)[0] = '#'; struct qb *q = (struct qb*)d; q->isnum = 1; q->neg = neg && mag != 0; q->mag = mag; return d; }
@@ -100,7 +120,8 @@ static int num_eq(struct numv a, struct numv b) { return a.isnum && b.isnum && a
 static int qb_eq_raw(QAD *a, QAD *b);
 static int view_eq(uint64_t na, const uint16_t *a, uint64_t nb, const uint16_t *b) { struct numv ia = num16(a, na), ib = num16(b, nb);
   if (ia.isnum || ib.isnum) return num_eq(ia, ib); QAD *ta = b64_16(a, na), *tb = b64_16(b, nb); if (ta || tb) return ta && tb && qb_eq_raw(ta, tb);
-  if (na != nb) return 0; return vpl_cmp16(a, b, (uint32_t)na, (uint32_t)na, (uint32_t)nb) == 0; }
+  if (na != nb) return 0; if (VIEW_EXACT(a, na) && VIEW_EXACT(b, nb)) return VIEW_SID(a, na) == VIEW_SID(b, nb);
+  return vpl_cmp16(a, b, (uint32_t)na, (uint32_t)na, (uint32_t)nb) == 0; }
 static int view_cmp(uint64_t na, const uint16_t *a, uint64_t nb, const uint16_t *b) { if (view_eq(na, a, nb, b)) return 0; uint32_t m = (uint32_t)(na < nb ? na : nb);
   int c = vpl_cmp16(a, b, m, (uint32_t)na, (uint32_t)nb); if (c) return c; return na == nb ? 1 /* distinct numbers with equal placeholder */ : (na < nb ? -1 : 1); }
 /* QAD-based loops: length, hint and data are dereferenced inside the loop condition/body so that they fold per candidate block */
@@ -108,6 +129,10 @@ static int view_cmp(uint64_t na, const uint16_t *a, uint64_t nb, const uint16_t 
 #define QHINT8(d) ((d)->f3 == QB_OFF ? ((struct qb*)(d))->hint : (d)->f1)
 #define QNUM16(d) ((d)->f3 == QS_OFF && ((struct qs*)(d))->isnum)
 #define QNUM8(d) ((d)->f3 == QB_OFF && ((struct qb*)(d))->isnum)
+#define QCH16(d) ((uint16_t*)((char*)(d) + (d)->f3))
+#define QEXACT16(d) ((d)->f3 == QS_OFF ? ((struct qs*)(d))->exact : ((d)->f1 <= 3))
+#define QSID16(d) ((d)->f3 == QS_OFF ? ((struct qs*)(d))->sid : SID_PACK(QCH16(d), (d)->f1))
+#define QLIT16(d) ((d)->f3 == QS_OFF ? ((struct qs*)(d))->lit : ((d)->f3 == 24))
 #define QTAG16(d) ((d)->f3 == QS_OFF ? ((struct qs*)(d))->b64 : (QAD*)0)
 #define QTAG8(d) ((d)->f3 == QB_OFF ? ((struct qb*)(d))->b64 : (QAD*)0)
 static int vpl_qeq16(QAD *a, QAD *b) { for (uint32_t i = 0; i < QHINT16(a) && i < QHINT16(b); i++) { if (i >= a->f1) break; if (((uint16_t*)((char*)a + a->f3))[i] != ((uint16_t*)((char*)b + b->f3))[i]) return 0; } return 1; }
@@ -116,7 +141,7 @@ static int qb_eq(QAD *a, QAD *b); static int qb_eq_raw(QAD *a, QAD *b);
 static int d_eq(QAD *a, QAD *b) {
   if (QNUM16(a) || QNUM16(b)) return QNUM16(a) && QNUM16(b) && ((struct qs*)a)->mag == ((struct qs*)b)->mag && ((struct qs*)a)->neg == ((struct qs*)b)->neg;
   if (QTAG16(a) || QTAG16(b)) return QTAG16(a) && QTAG16(b) && qb_eq_raw(QTAG16(a), QTAG16(b));
-  if (a->f1 != b->f1) return 0; return vpl_qeq16(a, b); }
+  if (a->f1 != b->f1) return 0; if (QEXACT16(a) && QEXACT16(b)) return QSID16(a) == QSID16(b); return vpl_qeq16(a, b); }
 /* raw byte blocks (targets of a base64 tag) are never tagged themselves: no recursion */
 static int qb_eq_raw(QAD *a, QAD *b) { if (a->f1 != b->f1) return 0; return vpl_qeq8(a, b); }
 static int qb_eq(QAD *a, QAD *b) {
@@ -128,7 +153,7 @@ static int qb_eq(QAD *a, QAD *b) {
 static void sym16(char *out, uint32_t minlen, uint32_t maxlen) { uint32_t len = vp_u32(); ASSUME(len >= minlen && len <= maxlen); ASSERT(maxlen <= 8, "symbolic string bound"); QAD *d = qs_new(len, maxlen);
   uint16_t c0 = vp_u16(), c1 = vp_u16(), c2 = vp_u16(), c3 = vp_u16(); uint16_t *p = SD(d);
   if (maxlen > 0) p[0] = c0; if (maxlen > 1) p[1] = c1; if (maxlen > 2) p[2] = c2; if (maxlen > 3) p[3] = c3;
-  if (maxlen > 4) { p[4] = vp_u16(); p[5] = vp_u16(); p[6] = vp_u16(); p[7] = vp_u16(); } *(QAD**)out = d; }
+  if (maxlen > 4) { p[4] = vp_u16(); p[5] = vp_u16(); p[6] = vp_u16(); p[7] = vp_u16(); } qs_seal(d, 0); *(QAD**)out = d; }
 void vp_sym_string(char *out, uint32_t maxlen) { sym16(out, 0, maxlen); }
 void vp_sym_string_nonempty(char *out, uint32_t maxlen) { sym16(out, 1, maxlen); }
 void vp_sym_bytes(char *out, uint32_t maxlen) { uint32_t len = vp_u32(); ASSUME(len <= maxlen); ASSERT(maxlen <= 8, "symbolic bytes bound"); QAD *d = qb_new(len, maxlen); uint8_t *p = BD(d);
@@ -143,12 +168,12 @@ void _ZN7QStringC1EPK5QChari(char *self, char *p, uint32_t n) { if (!p) { *(QAD*
   if ((int32_t)n < 0) n = vpl_strlen16((uint16_t*)p);
   QAD *src = blk16((uint16_t*)p, n); if (src && src->f1 == n) { *(QAD**)self = qad_ref(src); return; }
   *(QAD**)self = qs_from((uint16_t*)p, n); }
-void _ZN7QStringC1Ei5QChar(char *self, uint32_t n, uint16_t c) { if ((int32_t)n < 0) n = 0; QAD *d = qs_new(n, n); vpl_fill16(d, 0, c, n, n); *(QAD**)self = d; }
+void _ZN7QStringC1Ei5QChar(char *self, uint32_t n, uint16_t c) { if ((int32_t)n < 0) n = 0; QAD *d = qs_new(n, n); vpl_fill16(d, 0, c, n, n); qs_seal(d, 0); *(QAD**)self = d; }
 void _ZN7QStringC1EiN2Qt14InitializationE(char *self, uint32_t n, uint32_t init) { *(QAD**)self = qs_new(n, n); }
-void _ZN7QStringC1E5QChar(char *self, uint16_t c) { QAD *d = qs_new(1, 1); SD(d)[0] = c; *(QAD**)self = d; }
+void _ZN7QStringC1E5QChar(char *self, uint16_t c) { QAD *d = qs_new(1, 1); SD(d)[0] = c; qs_seal(d, 0); *(QAD**)self = d; }
 char* _ZN7QStringaSERKS_(char *self, char *o) { QAD *n = qad_ref(*(QAD**)o); qad_deref(*(QAD**)self); *(QAD**)self = n; return self; }
-char* _ZN7QStringaSE5QChar(char *self, uint16_t c) { QAD *d = qs_new(1, 1); SD(d)[0] = c; *(QAD**)self = d; return self; }
-char* _ZN7QStringaSE13QLatin1String(char *self, uint32_t n, char *l) { QAD *d = qs_new(n, n); vpl_widen(d, 0, (uint8_t*)l, n, n); *(QAD**)self = d; return self; }
+char* _ZN7QStringaSE5QChar(char *self, uint16_t c) { QAD *d = qs_new(1, 1); SD(d)[0] = c; qs_seal(d, 0); *(QAD**)self = d; return self; }
+char* _ZN7QStringaSE13QLatin1String(char *self, uint32_t n, char *l) { QAD *d = qs_new(n, n); vpl_widen(d, 0, (uint8_t*)l, n, n); qs_seal(d, 1); *(QAD**)self = d; return self; }
 uint8_t _ZeqRK7QStringS1_(char *a, char *b) { return d_eq(*(QAD**)a, *(QAD**)b); }
 uint8_t _ZltRK7QStringS1_(char *a, char *b) { QAD *x = *(QAD**)a, *y = *(QAD**)b; return view_cmp(x->f1, qs_chars(x), y->f1, qs_chars(y)) < 0; }
 uint8_t _ZNK7QStringeqE13QLatin1String(char *a, uint32_t n, char *l) { QAD *x = *(QAD**)a; if (numS(x).isnum || x->f1 != n) return 0; return vpl_cmp16_8(qs_chars(x), (uint8_t*)l, n, x->f1, n) == 0; }
@@ -205,33 +230,33 @@ static void mid_calc(int32_t sz, int32_t *pp, int32_t *plen, int *null) { int32_
   if (len < 0 || len > sz - p) len = sz - p; *pp = p; *plen = len; }
 void _ZNK7QString3midEii(char *ret, char *self, uint32_t pos, uint32_t n) { QAD *d = *(QAD**)self; int32_t p = (int32_t)pos, len = (int32_t)n; int nul; mid_calc((int32_t)d->f1, &p, &len, &nul);
   if (nul) { *(QAD**)ret = SHARED_NULL; return; } if (p == 0 && len == (int32_t)d->f1) { *(QAD**)ret = qad_ref(d); return; } ASSERT(!numS(d).isnum, "mid() of an abstract number string");
-  QAD *r = qs_new((uint32_t)len, qs_hint(d)); vpl_copy16(r, 0, qs_chars(d) + p, (uint32_t)len, qs_hint(d)); *(QAD**)ret = r; }
+  QAD *r = qs_new((uint32_t)len, qs_hint(d)); vpl_copy16(r, 0, qs_chars(d) + p, (uint32_t)len, qs_hint(d)); qs_seal(r, 0); *(QAD**)ret = r; }
 void _ZNK7QString4leftEi(char *ret, char *self, uint32_t n) { _ZNK7QString3midEii(ret, self, 0, (int32_t)n < 0 ? (uint32_t)-1 : n); }
 void _ZNK7QString5rightEi(char *ret, char *self, uint32_t n) { QAD *d = *(QAD**)self; if (n >= d->f1) { *(QAD**)ret = qad_ref(d); return; } _ZNK7QString3midEii(ret, self, d->f1 - n, n); }
 void _ZN7QString6resizeEi(char *self, uint32_t n) { QAD *d = *(QAD**)self; if ((int32_t)n < 0) n = 0; ASSERT(!numS(d).isnum || n == d->f1, "resize() of an abstract number string");
-  if (REF(d) == 1 && VP_BLK_DYN(d)) { ASSERT(n <= QS_CAP, "QString capacity of the model exceeded"); d->f1 = n; if (((struct qs*)d)->hint < n) ((struct qs*)d)->hint = n; return; }
+  if (REF(d) == 1 && VP_BLK_DYN(d)) { ASSERT(n <= QS_CAP, "QString capacity of the model exceeded"); d->f1 = n; ((struct qs*)d)->exact = 0; ((struct qs*)d)->lit = 0; if (((struct qs*)d)->hint < n) ((struct qs*)d)->hint = n; return; }
   QAD *nd = qs_new(n, n > qs_hint(d) ? n : qs_hint(d)); vpl_copy16(nd, 0, qs_chars(d), umin(n, d->f1), qs_hint(d)); qad_deref(d); *(QAD**)self = nd; }
-void _ZN7QString11reallocDataEjb(char *self, uint32_t alloc, uint8_t grow) { QAD *d = *(QAD**)self; ASSERT(alloc <= QS_CAP + 1, "QString capacity of the model exceeded"); if (REF(d) == 1 && VP_BLK_DYN(d)) return;
-  ASSERT(!numS(d).isnum, "detach of an abstract number string"); QAD *nd = qs_from(qs_chars(d), d->f1); ((struct qs*)nd)->hint = umin(alloc, QS_CAP); qad_deref(d); *(QAD**)self = nd; }
+void _ZN7QString11reallocDataEjb(char *self, uint32_t alloc, uint8_t grow) { QAD *d = *(QAD**)self; ASSERT(alloc <= QS_CAP + 1, "QString capacity of the model exceeded"); if (REF(d) == 1 && VP_BLK_DYN(d)) { ((struct qs*)d)->exact = 0; ((struct qs*)d)->lit = 0; /* the caller is about to write into the block */ return; }
+  ASSERT(!numS(d).isnum, "detach of an abstract number string"); QAD *nd = qs_from(qs_chars(d), d->f1); ((struct qs*)nd)->hint = umin(alloc, QS_CAP); ((struct qs*)nd)->exact = 0; ((struct qs*)nd)->lit = 0; qad_deref(d); *(QAD**)self = nd; }
 static void qs_append_raw(char *self, const uint16_t *p, uint32_t n, uint32_t hint) { QAD *a = *(QAD**)self; ASSERT(!numS(a).isnum, "append to an abstract number string"); uint32_t ha = qs_hint(a);
-  QAD *d = qs_new(a->f1 + n, ha + hint); vpl_copy16(d, 0, qs_chars(a), a->f1, ha); vpl_copy16(d, a->f1, p, n, hint); qad_deref(a); *(QAD**)self = d; }
+  QAD *d = qs_new(a->f1 + n, ha + hint); vpl_copy16(d, 0, qs_chars(a), a->f1, ha); vpl_copy16(d, a->f1, p, n, hint); qs_seal(d, QLIT16(a) && VIEW_LIT(p, n)); qad_deref(a); *(QAD**)self = d; }
 char* _ZN7QString6appendERKS_(char *self, char *o) { QAD *a = *(QAD**)self, *b = *(QAD**)o; if (b->f1 == 0) return self; if (a->f1 == 0) { *(QAD**)self = qad_ref(b); qad_deref(a); return self; }
   ASSERT(!numS(b).isnum, "append of an abstract number string"); qs_append_raw(self, qs_chars(b), b->f1, qs_hint(b)); return self; }
 char* _ZN7QString6appendE5QChar(char *self, uint16_t c) { qs_append_raw(self, &c, 1, 1); return self; }
 char* _ZN7QString6appendEPK5QChari(char *self, char *p, uint32_t n) { if (p && (int32_t)n > 0) { ASSERT(!num16((uint16_t*)p, n).isnum, "append of an abstract number string"); qs_append_raw(self, (uint16_t*)p, n, hint16((uint16_t*)p, n)); } return self; }
 char* _ZN7QString6appendE13QLatin1String(char *self, uint32_t n, char *l) { QAD *a = *(QAD**)self; ASSERT(!numS(a).isnum, "append to an abstract number string"); uint32_t ha = qs_hint(a);
-  QAD *d = qs_new(a->f1 + n, ha + n); vpl_copy16(d, 0, qs_chars(a), a->f1, ha); vpl_widen(d, a->f1, (uint8_t*)l, n, n); qad_deref(a); *(QAD**)self = d; return self; }
+  QAD *d = qs_new(a->f1 + n, ha + n); vpl_copy16(d, 0, qs_chars(a), a->f1, ha); vpl_widen(d, a->f1, (uint8_t*)l, n, n); qs_seal(d, QLIT16(a)); qad_deref(a); *(QAD**)self = d; return self; }
 /* UTF-8 <-> UTF-16: identity on ASCII; anything else is outside the model (asserted): the codec is Qt's */
 void _ZN7QString15fromUtf8_helperEPKci(char *ret, char *p, uint32_t n) { if (!p) { *(QAD**)ret = SHARED_NULL; return; } if ((int32_t)n < 0) n = vpl_strlen8((uint8_t*)p);
   struct numv ni = num8((uint8_t*)p, n); if (ni.isnum) { *(QAD**)ret = qs_number(ni.mag, ni.neg); return; }
   { QAD *t = b64_8((uint8_t*)p, n); if (t) { QAD *d = qs_new(1, 1); SD(d)[0] = '@'; ((struct qs*)d)->b64 = t; *(QAD**)ret = d; return; } }
-  uint32_t h = hint8((uint8_t*)p, n); QAD *d = qs_new(n, h); vpl_widen(d, 0, (uint8_t*)p, n, h);
+  uint32_t h = hint8((uint8_t*)p, n); QAD *d = qs_new(n, h); vpl_widen(d, 0, (uint8_t*)p, n, h); qs_seal(d, !VP_IS_QB(p) && VP_LITSTART(p));
 #ifndef VP_UTF8_LATIN1
   for (uint32_t i = 0; i < 8; i++) if (i < n) ASSERT(((uint8_t*)p)[i] < 0x80, "fromUtf8: non-ASCII byte (UTF-8 codec is Qt's, not modelled)");
 #endif
   *(QAD**)ret = d; }
 void _ZN7QString17fromLatin1_helperEPKci(char *ret, char *p, uint32_t n) { if (!p) { *(QAD**)ret = SHARED_NULL; return; } if ((int32_t)n < 0) n = vpl_strlen8((uint8_t*)p);
-  uint32_t h = hint8((uint8_t*)p, n); QAD *d = qs_new(n, h); vpl_widen(d, 0, (uint8_t*)p, n, h); *(QAD**)ret = d; }
+  uint32_t h = hint8((uint8_t*)p, n); QAD *d = qs_new(n, h); vpl_widen(d, 0, (uint8_t*)p, n, h); qs_seal(d, !VP_IS_QB(p) && VP_LITSTART(p)); *(QAD**)ret = d; }
 static void to8(char *ret, const uint16_t *p, uint64_t n, uint16_t lim) { struct numv ni = num16(p, n); if (ni.isnum) { *(QAD**)ret = qb_number(ni.mag, ni.neg); return; }
   { QAD *t = b64_16(p, n); if (t) { QAD *d = qb_new(1, 1); BD(d)[0] = '@'; ((struct qb*)d)->b64 = t; *(QAD**)ret = d; return; } }
   uint32_t h = hint16(p, n); QAD *d = qb_new((uint32_t)n, h); uint8_t ok = vpl_narrow(d, 0, p, (uint32_t)n, h, lim);
@@ -296,4 +321,5 @@ int bcmp(const void *a, const void *b, size_t n) { return vpl_memcmp((const uint
 #ifdef __CPROVER__
 int memcmp(const void *a, const void *b, size_t n) { return vpl_memcmp((const uint8_t*)a, (const uint8_t*)b, n); }
 #endif
+uint64_t _ZN9QtPrivate8qustrlenEPKt(char *p) { return vpl_strlen16((uint16_t*)p); }
 #endif
